@@ -25,8 +25,22 @@ func minimise(def *PropDef, cs *Case, budget time.Duration) *Case {
 	deadline := time.Now().Add(budget)
 	sig := cs.Expect.Sig
 	best := cloneCase(cs)
+	hasKey := func(c *Case) bool {
+		for _, col := range c.Schema {
+			if col.Kind == KKey {
+				return true
+			}
+		}
+		return false
+	}
+	keyed := hasKey(cs)
 	try := func(c *Case) bool {
 		if time.Now().After(deadline) {
+			return false
+		}
+		if keyed && !hasKey(c) {
+			// without the key column every key operation fails with "no key column": the same
+			// signature for an unrelated reason
 			return false
 		}
 		c.Expect, c.TraceHash = nil, 0
